@@ -68,7 +68,7 @@ func c16Run(store quickfix.MessageStore, reopen func() quickfix.MessageStore, pf
 		switch op {
 		case 0:
 			verifCase("set-sender")
-			x := ndInt("x", 10, 60)
+			x := ndInt("x", 1, 120) // one to three digits: a shorter value may follow a longer one
 			verifAssert(store.SetNextSenderMsgSeqNum(x) == nil, pfx+"-op-succeeds")
 			model.N = x
 		case 1:
